@@ -1,5 +1,6 @@
 import Dia.ServerPrefix
 import Dia.Hostile
+import Dia.Examples
 /-! # C08 - Server answers each request exactly once, in order, unmodified. Property theorems only.
 `serve` is the per-connection loop as a function of the read script, the handler's scripted results and the write
 script; its log lists the requests handed to the handler and every octet put on the stream. -/
@@ -86,5 +87,20 @@ theorem C08_malformed_example (cfg : Cfg) (dict : Lookup) (b0 : UInt8) (L : Nat)
   obtain ⟨_, g2, _⟩ := h2 _ _ hr
   rw [hfb] at g2
   exact ⟨_, (g2 hL).1⟩
+
+/-! non-vacuity: one acceptable request (`exFrame`), answered by a message that encodes to the same 20 octets, delivered
+in two pieces over a writer that accepts one octet at a time -/
+example : (serve exCfg exDictNone [.ok exFrameMsg] [.data (exFrame.take 7), .pending, .data (exFrame.drop 7)]
+    [.accept 1, .pending, .accept 1]).calls = [exFrameMsg] ∧
+    (serve exCfg exDictNone [.ok exFrameMsg] [.data (exFrame.take 7), .pending, .data (exFrame.drop 7)]
+    [.accept 1, .pending, .accept 1]).written = exFrame := by
+  have h := C08_all_good exCfg exDictNone [exFrame] [exFrameMsg] [exFrameMsg]
+    [.data (exFrame.take 7), .pending, .data (exFrame.drop 7)] [.accept 1, .pending, .accept 1] rfl rfl
+    (by intro i h1 h2; have : i = 0 := by simpa using h1
+        subst this; exact exFrame_accepts)
+    (by intro a ha; simp at ha; subst ha; rw [exFrameMsg_enc])
+    (by simp [noEmpty, exFrame]) (by decide) (by intro e he; simp at he; rcases he with rfl | rfl | rfl <;> simp [WEv.good])
+  simp only [List.map_cons, List.map_nil] at h
+  exact ⟨h.1, by rw [h.2.1]; simp [exFrameMsg_enc]⟩
 
 end Dia
